@@ -484,6 +484,66 @@ func runC02(r *Run) {
 		}
 	}
 	r.Floor("R4", "bank-moving effect sites in precompile handlers", nMoving, 9)
+	// mirror targets: a StateDB balance write made by a precompile handler is only a mirror (and not a second
+	// credit/debit) if the account's state object was loaded BEFORE the bank change. That is guaranteed for
+	// contract.CallerAddress (the frame's caller exists in the StateDB) and the origin (loaded when the message
+	// started); any other address must be read through the StateDB before the Cosmos-side effect on every path.
+	nMirror := 0
+	for _, m := range models {
+		if !m.Stateful {
+			continue
+		}
+		for _, h := range m.Handlers {
+			if h.Fn == nil {
+				continue
+			}
+			sites := effectSites(h.Fn, 3, map[*ssa.Function]bool{})
+			isEffect := func(in ssa.Instruction) bool {
+				for _, s := range sites {
+					if ssa.Instruction(s.Call) == in {
+						return true
+					}
+				}
+				return false
+			}
+			eachCall(h.Fn, func(ci CallInfo) {
+				if !isStateDBBalanceWrite(ci) {
+					return
+				}
+				nMirror++
+				addr := argN(ci.Instr, 0)
+				if ci.Invoke {
+					addr = ci.Instr.Common().Args[0]
+				} else {
+					addr = ci.Instr.Common().Args[1]
+				}
+				inst := fmt.Sprintf("%s#mirror-target/%s-%d", fnID(h.Fn), ci.Name, nMirror)
+				sl := backSlice(addr)
+				known := sl.HasField("Contract", "CallerAddress") || sl.HasParam("origin") || sl.HasField("TxContext", "Origin")
+				fromKeeper := sl.Any(func(v ssa.Value) bool {
+					c, ok := v.(*ssa.Call)
+					return ok && (callInfo(c).Recv == "Keeper" || strings.HasSuffix(callInfo(c).Recv, "Keeper"))
+				})
+				if known && !fromKeeper {
+					r.OK("R4", inst, P.Pos(instrPos(ci.Instr)), "mirrors the frame's caller / the origin (loaded before the bank change)")
+					return
+				}
+				// otherwise: a StateDB read of the same address value must precede every effect
+				same := stripValue(addr)
+				isLoad := isCallMatching(func(g CallInfo) bool {
+					if g.Recv != "StateDB" || !(g.Name == "GetBalance" || g.Name == "Exist" || g.Name == "Empty" || g.Name == "GetNonce" || g.Name == "GetCodeHash") {
+						return false
+					}
+					a := g.Instr.Common().Args
+					return len(a) > 0 && stripValue(a[len(a)-1]) == same
+				})
+				w := PathQuery{Fn: h.Fn, Block: isLoad, Target: isEffect}.Search()
+				r.Check(w == nil && len(sites) > 0, "R4", inst, P.Pos(instrPos(ci.Instr)), "the mirrored account is read through the StateDB before the Cosmos-side effect",
+					"the handler writes a balance change into the StateDB for an account that is neither the frame's caller nor the origin and that was not loaded into the StateDB before the Cosmos-side change: the state object is created after the bank change, already contains it, and the mirror adds it a second time — the final Commit mints (or burns) the difference", P.witness(w)...)
+			})
+		}
+	}
+	r.Floor("R4", "StateDB balance mirrors in precompile handlers", nMirror, 3)
 	r.Count("R4 effect sites classified non-moving", nNonMoving)
 
 	// ---------- R5 ----------
@@ -556,6 +616,11 @@ func runC02(r *Run) {
 	} else {
 		r.Bad("R5", "anchor/BlockedAddrs", "", "(*app.Haqq).BlockedAddrs not found")
 	}
+	// the whole-transaction cache context is what discards a failed transaction's mid-transaction flush
+	// (stateDB.Commit() before every precompile dispatch) — the same rule code as C05 R2
+	r.Rule("R6", "see C05 R2 (imported): the message always runs on a cache context that is committed only on success")
+	r.Import("R6/C05.", []string{"R2"}, runC05)
+
 }
 
 // checkDepVersions: the frozen effects table is only valid for the dependency versions it was read from.
